@@ -296,6 +296,14 @@ func c02Check(env *core.Env, cc core.Case) core.Verdict {
 		return core.Verdict{Status: core.Skipped, Msg: "does not compile"}
 	}
 	out := run.Out
+	// the output mode is for the messages, not for the product: with -o github generate prints the same single line
+	if len(c.Main)%5 == 0 || c.Lane == "long-expression" {
+		gh := sut.Run(sut.Cmd{Bin: env.Bin, Args: []string{"-o", "github", "-d", root, "regex", "generate", "-"}, Stdin: []byte(c.Main), Dir: root})
+		if gh.Class() != sut.ClassTimeout && (gh.Exit != 0 || string(gh.Stdout) != out) {
+			return core.Viol("github-mode-changes-output", "generate -o github prints something else than generate (exit %d)\nprogram=%s\ntext mode  =%s\ngithub mode=%s", gh.Exit, core.Q(c.Main), core.Q(out), core.Q(string(gh.Stdout)))
+		}
+		v.Counts["github_mode_runs"]++
+	}
 	report := func(out, where string) *core.Verdict {
 		ds := c02Scan(out)
 		if len(ds) == 0 {
@@ -397,6 +405,19 @@ func init() {
 				"caf\\351\n", "(?i)[k-l]x\n", "(?i:[s])tart\n", "##!+ i\n[k]elvin\n[s]t\n", "##!^ \\351\nfoo\n", "a\\177b\n", "x\\200y\n", "##!$ \\303\\251\nfoo\nbar\n", "(?i)k+s\n", "\\0\n\\07x\n",
 				"##!+ i\n(?P<scheme>https?)://x\n", "##!+ is\n(?P<Name>a.b)|c\n", "(?P<n>x)y\n", "##!+ i\nfoo(?P<A>BAR)\n", "##!+ s\n(?P<dot>.)(?P<Rest>[A-Z]+)\n", "##!+ i\n##!^ (?P<Pre>p)\nfoo\nbar\n"} {
 				cs = append(cs, &c02Case{Main: m, Lane: "whole-expression-flag-groups-and-named-groups", Update: true})
+			}
+			// more author-written flag groups than any bound on "the handful the engine inserts"
+			{
+				var sb strings.Builder
+				for i := 0; i < 150; i++ {
+					fmt.Fprintf(&sb, "p%03d(?i:kw)s%03d\n", i, i)
+				}
+				cs = append(cs, &c02Case{Main: sb.String(), Lane: "many-flag-groups"}, &c02Case{Main: "##!+ s\n" + sb.String(), Lane: "many-flag-groups"})
+				var long strings.Builder
+				for i := 0; i < 700; i++ {
+					fmt.Fprintf(&long, "longword%04dq%dz\n", i*7919%10000, i)
+				}
+				cs = append(cs, &c02Case{Main: long.String(), Lane: "long-expression", Update: true})
 			}
 			return cs
 		},
